@@ -18,6 +18,7 @@ CLAIMED = {
     "C04": ("§5 C04", "SSA symbolic execution + SMT: the iterator state machines driven over symbolic bitmaps (exhaustive walks, HasNext/Next/PeekNext/AdvanceIfNeeded call strings against a model cursor, NextMany buffer-length sequences, unset windows, Ranges) with order/membership/count oracles"),
     "C05": ("§5 C05", "SSA symbolic execution + SMT over a byte-addressed memory model: WriteTo/ToBytes/MarshalBinary of symbolic bitmaps through bytes.Buffer and the unsafe slice views, decoded by each entry point (incl. chunked readers, reused receivers, trailing bytes, failing writers) and compared pointwise"),
     "C06": ("§5 C06", "SSA symbolic execution + SMT: an independent harness-side codec written from the format description; library bytes parsed field by field (cookie, count, run flags, descriptors, offsets, payload forms), and spec-conformant streams with every legal encoder choice read by the library and compared pointwise"),
+    "C07": ("§5 C07", "SSA symbolic execution + SMT: every producing operation from inputs with symbolic keys / copy-on-write flags / shared clone sources, followed by one symbolic mutation of one participant; all other bitmaps compared cell-by-cell with representation snapshots; argument slices compared; Par* under one deterministic goroutine schedule"),
     "C08": ("§5 C08", "SSA symbolic execution + SMT with a write-protected caller buffer (any store into it traps in the VM): zero-copy loads followed by call strings of all mutators / in-place set operations / derived bitmaps; detach then scribble over the buffer"),
     "C09": ("§5 C09", "SSA symbolic execution + SMT: invariant-only mode of the C01/C02 harness families from states satisfying the full invariant; wf(result) and the real Validate()==nil asserted after every operation"),
     "C10": ("§5 C10", "SSA symbolic execution + SMT: every decoder on FULLY symbolic byte strings of every length up to the bound (every Go panic / out-of-buffer access / oversized allocation is a proof obligation; attacker-sized buffers are modelled lazily), every proper prefix of valid streams, V=>I on unconstrained representations, MustReadFrom vs ReadFrom"),
